@@ -5,6 +5,20 @@
 
 namespace etl::detail {
 
+/// Three-way comparison of two characters as the C library compares them: narrow characters by
+/// their value as unsigned char, wide characters by their value. Returns -1, 0 or 1.
+template <typename CharT>
+[[nodiscard]] constexpr auto cstr_compare(CharT lhs, CharT rhs) noexcept -> int
+{
+    if constexpr (sizeof(CharT) == 1) {
+        auto const l = static_cast<unsigned char>(lhs);
+        auto const r = static_cast<unsigned char>(rhs);
+        return static_cast<int>(l > r) - static_cast<int>(l < r);
+    } else {
+        return static_cast<int>(lhs > rhs) - static_cast<int>(lhs < rhs);
+    }
+}
+
 template <typename CharT>
 [[nodiscard]] constexpr auto strcpy(CharT* dest, CharT const* src) -> CharT*
 {
@@ -73,7 +87,7 @@ template <typename CharT>
             break;
         }
     }
-    return static_cast<int>(*lhs) - static_cast<int>(*rhs);
+    return cstr_compare<CharT>(*lhs, *rhs);
 }
 
 template <typename CharT, typename SizeT>
@@ -87,7 +101,7 @@ template <typename CharT, typename SizeT>
         u1 = static_cast<CharT>(*lhs++);
         u2 = static_cast<CharT>(*rhs++);
         if (u1 != u2) {
-            return static_cast<int>(u1 - u2);
+            return cstr_compare<CharT>(u1, u2);
         }
         if (u1 == CharT(0)) {
             return 0;
